@@ -10,6 +10,7 @@ import traceback
 REGISTRY = {
     "C01": ("vf.props.value", "C01"),
     "C02": ("vf.props.value", "C02"),
+    "C11": ("vf.props.tokenizer", None),
     "C13": ("vf.props.clone", None),
     "C14": ("vf.props.treeprops", "C14"),
     "C15": ("vf.props.treeprops", "C15"),
